@@ -2,6 +2,28 @@
 import gencheck
 
 
+def split_partition(rep, tier, seed):
+    """Builder option `split`: the split output holds, file by file, exactly the items of the single-file output
+    (SplitIsPartition / SplitNamesDistinct of spec/CodegenPipeline.tla observed on the builder), with and without
+    keep_unknown_fields -- what the checks establish on the single-file code therefore holds for the split code."""
+    import glob, os
+    from concurrent.futures import ThreadPoolExecutor
+    import common as c, splitcheck
+    gencheck.prepare(tier, seed)          # renders the corpus IDL
+    d = os.path.join(c.OUT, "corpus", f"thrift-{tier}-{seed}")
+    idls = sorted(glob.glob(os.path.join(d, "*.thrift"))) + sorted(glob.glob(os.path.join(c.REPO, "pilota-build/test_data/thrift/*.thrift")))
+    jobs = [(f, keep) for f in idls for keep in (False, True)]
+    with ThreadPoolExecutor(max_workers=6) as ex:
+        res = list(ex.map(lambda j: splitcheck.check("thrift", j[0], include=os.path.dirname(j[0]), keep=j[1]), jobs))
+    nfiles = 0
+    for (f, keep), (probs, n) in zip(jobs, res):
+        nfiles += n
+        for cls, replay in probs:
+            rep.violation(dict(cls, unit="keep" if keep else "plain"), replay)
+    return {"split_mode_partition": {"documents": len(idls), "builder_runs": 2 * len(jobs), "item_files_matched": nfiles,
+                                     "model": "spec/CodegenPipeline.tla SplitIsPartition, SplitNamesDistinct"}}
+
+
 def run(rep, tier, seed, replay):
     rep.assumptions = ["schema semantics: spec/ThriftSchema.tla (tolerant reader, defaults, retention); wire decoding of outputs by the "
                        "reference decoders; corpus = lib/schemas.py covering selection over the type-shape pool of DESIGN.md appendix B",
@@ -9,4 +31,5 @@ def run(rep, tier, seed, replay):
     c_build = __import__("common").build_harness()
     tr = gencheck.encode_traces(rep, "C02", tier, seed)
     tr.update(gencheck.decode_traces(rep, "C02", tier, seed))
+    tr.update(split_partition(rep, tier, seed))
     return gencheck.run_property(rep, "C02", tier, seed, "model_checking", extra_cov=tr)
